@@ -137,6 +137,8 @@ pub open spec fn lex_step(st: LexState, s: Seq<char>, k: SyntaxKind, t: Seq<char
     &&& (k, t.len() as int, st2) == lex_fn(st, s)
 }
 
+pub type Tok = (SyntaxKind, Seq<char>);
+
 /// the whole token sequence of a text
 pub open spec fn tokens_of(st: LexState, s: Seq<char>) -> Seq<(SyntaxKind, Seq<char>)>
     decreases s.len()
